@@ -4,7 +4,7 @@
    Theorems quantify over ALL tries in normal form / ALL operation sequences / ALL byte strings. *)
 From Coq Require Import Sorted.
 From NG Require Import Common.Tactics Trie.Model Trie.Lemmas Trie.PutDelete Trie.Unique Trie.Batch Trie.History
-  Trie.Range Trie.Collapse Trie.Merkle Trie.Store Trie.StoreProofs.
+  Trie.Range Trie.Collapse Trie.Merkle Trie.Store Trie.StoreProofs Trie.StoreRC.
 
 (* ---------- byte keys are nibble paths (toNibbles), injectively ---------- *)
 
@@ -210,6 +210,32 @@ Theorem C10_reload_from_root : forall (H : bytes -> bytes), (forall x, length (H
    (forall kv, kv_ok kv -> exists c', sput_batch st (HashRef (root H t)) kv = Some c' /\ root H c' = root H (put_batch t kv))).
 Proof. exact reload_from_root. Qed.
 Print Assumptions C10_reload_from_root.
+
+(* ---------- the cached view of the stored reference counters (ModeLatest / ModeGC), Trie/StoreRC.v ---------- *)
+
+(* any sequence of addRef/removeRef bumps, reloads of nodes (getFromStore refreshing the cached counter, or not:
+   sequences without RReload are included), flushes and flushed collapses, ending with a RFlush: every stored
+   counter is the sum of the bumps of its hash *)
+Theorem C10_rc_exact : forall evs x, rc_ok true rc_init (evs ++ [RFlush]) ->
+  rc_table (rc_run true rc_init (evs ++ [RFlush])) x = rc_want evs x.
+Proof. exact rc_exact. Qed.
+Print Assumptions C10_rc_exact.
+
+(* with the bumps of every block summing to the change of the occurrence counts: after every RFlush the stored
+   counter of a hash is the number of its occurrences in the current trie (so nothing referenced is dropped) *)
+Theorem C10_rc_counts_occurrences : forall (H : bytes -> bytes) evs t h, rc_hist H evs t -> rc_ok true rc_init (evs ++ [RFlush]) ->
+  rc_table (rc_run true rc_init (evs ++ [RFlush])) h = rc_occ H t h.
+Proof. exact rc_counts_occurrences. Qed.
+Print Assumptions C10_rc_counts_occurrences.
+
+(* a RFlush that does not write the new counter back into the cache: a leaf hash shared by two keys, reloaded while
+   a change is pending, two flushes without a collapse in between, ends with counter 0 while it is referenced once *)
+Theorem C10_rc_flush_without_writeback_refuted :
+  rc_ok false rc_init rc_witness /\
+  rc_table (rc_run false rc_init rc_witness) [1%N] = 0%Z /\ rc_want rc_witness [1%N] = 1%Z /\
+  rc_table (rc_run true rc_init rc_witness) [1%N] = 1%Z.
+Proof. exact rc_flush_without_writeback_refuted. Qed.
+Print Assumptions C10_rc_flush_without_writeback_refuted.
 
 (* ---------- non-vacuity: the hypotheses are satisfied by concrete, non-trivial states ---------- *)
 
